@@ -20,6 +20,7 @@ import (
 	v3 "github.com/deadsy/sdfx/vec/v3"
 	"pgregory.net/rapid"
 
+	"verif/internal/detsig"
 	"verif/internal/ev"
 	"verif/internal/fmtread"
 	"verif/internal/g"
@@ -368,6 +369,18 @@ func TestDeterministicAcrossConfigurations(t *testing.T) {
 
 // TestFreshProcesses: the same program (model construction + render) in fresh
 // processes under different GOMAXPROCS / GOGC must print identical outputs.
+var inProcCases int
+
+// the To* functions print "rendering <path>" on stdout
+func quietly(f func()) {
+	old := os.Stdout
+	if dn, err := os.OpenFile(os.DevNull, os.O_WRONLY, 0); err == nil {
+		os.Stdout = dn
+		defer func() { os.Stdout = old; dn.Close() }()
+	}
+	f()
+}
+
 func TestFreshProcesses(t *testing.T) {
 	rec := ev.Get()
 	bin := filepath.Join(os.Getenv("VERIF_BIN"), "detchild"+os.Getenv("VERIF_BIN_SUFFIX"))
@@ -433,6 +446,25 @@ func TestFreshProcesses(t *testing.T) {
 			} else if sig != first {
 				rec.Violation(t, "C09:fresh-process-output-differs", "program %s renderer %v cells %v: run under %v printed\n%s\nrun under %v printed\n%s", n, c["renderer"], c["cells"], envs[0], first, e, sig)
 			}
+		}
+		// the same job in THIS process, which has rendered many other models before: the output must be
+		// that of the fresh processes (a render does not depend on what the process rendered earlier).
+		// Programs that draw from the library's process-wide random source are exempt: their geometry
+		// legitimately depends on how much of the stream earlier constructions consumed.
+		if !n.Has("bezier", "text") {
+			var dc detsig.Case
+			if err := json.Unmarshal(cj, &dc); err != nil {
+				t.Fatalf("case json: %v", err)
+			}
+			od := filepath.Join(dir, "inproc")
+			os.MkdirAll(od, 0o755)
+			var lines []string
+			quietly(func() { lines = detsig.Lines(dc, od) })
+			if sig := strings.Join(lines, "\n"); sig != first {
+				rec.Violation(t, "C09:in-process-output-differs-from-fresh-process", "program %s renderer %v cells %v: a fresh process printed\n%s\nthis process (after %d earlier cases) printed\n%s", n, c["renderer"], c["cells"], first, inProcCases, sig)
+			}
+			inProcCases++
+			rec.Add("fresh:compared-with-in-process-render", 1)
 		}
 		usesRand := n.Has("bezier", "text")
 		rec.Case(true, ev.Key(n.String(), c["renderer"], c["cells"]), "fresh:"+fmt.Sprint(c["renderer"]), fmt.Sprintf("fresh:uses-library-random-source=%v", usesRand))
